@@ -249,4 +249,9 @@ def replay(ctx, data, prop):
     v = schedlib.monitor(rp, sc, out, tasks, crash, [prop])
     for o in out: print(o['events'])
     print(v, crash)
+    # (judged by the clause the input was recorded for, if it says so - a script with placements of the application's own
+    #  also shows the recorded findings F3 on every tree; by every clause otherwise)
+    sig = str(data.get('signature') or '')
+    if sig and not sig.startswith('corpus:'):
+        return sig not in [x[1] for x in v]
     return not v
